@@ -126,6 +126,11 @@ pub fn run<K: Kmer + Send + Sync>(c: &GCase) -> Outcome {
         if firsts.len() != nodes.len() || lasts.len() != nodes.len() {
             return o;
         }
+        // a valid graph holds every (canonical) k-mer at most once
+        let all: Vec<S> = nodes.iter().flat_map(|n| windows(n, k)).map(|w| canon(&w, c.stranded).0).collect();
+        if all.iter().collect::<std::collections::BTreeSet<_>>().len() != all.len() {
+            return o;
+        }
         if nodes.iter().any(|n| (!c.stranded && n.len() > k) && (is_pal(&n[..k]) || is_pal(&n[n.len() - k..]))) {
             o.flags |= flag::PAL;
         }
